@@ -45,6 +45,7 @@ def gen_cases(ctx):
                                          "pure_spin", "pure_spin"]))
         c["t0"] = float(rng.choice([0.0, 0.7, -1.3, 1e4, 1e6]))
         c["regime_via"] = "static"
+        c["reversed"] = bool(rng.random() < 0.25)
         yield c
 
 
@@ -53,7 +54,7 @@ def reference(H, t_a, t_b, F):
     if mode == "const":
         return expm(H.Lfun(0.0, None) * (t_b - t_a)) @ F
     if mode == "multirate":   # piecewise constant: exact matrix exponentials per piece
-        pts = [t_a] + [x for x in H.breaks if t_a < x < t_b] + [t_b]
+        pts = [t_a] + [x for x in H.breaks if min(t_a, t_b) < x < max(t_a, t_b)] + [t_b]
         for u, v in zip(pts[:-1], pts[1:]):
             F = expm(H.Lfun(0.5 * (u + v), None) * (v - u)) @ F
         return F
@@ -74,7 +75,7 @@ def check_case(ctx, case):
     # integral of tr L for the determinant law
     trint = [0.0]
     for a, b in zip(H.ts[:-1], H.ts[1:]):
-        pts = [a] + [x for x in H.breaks if a < x < b] + [b]
+        pts = [a] + [x for x in H.breaks if min(a, b) < x < max(a, b)] + [b]
         acc = 0.0
         for u, v in zip(pts[:-1], pts[1:]):
             tt = np.linspace(u, np.nextafter(v, u) if v in H.breaks else v, 201)
